@@ -308,10 +308,10 @@ class Check:
         return problems
 
     def kcompare(self, tag, exe, component, histories, impl_args=(), model_args=(), env=None, keep_head=1,
-                 what="", max_reports=2, chunk=4000, known_key_fn=None, timeout=900):
+                 what="", max_reports=2, chunk=4000, known_key_fn=None, timeout=900, corpus_prefix=None):
         """Corpus first, then the generated histories; shrink and report the first few divergences
         (API-visible ones preferred).  Returns the number of problems seen."""
-        allh = [ls for _, ls in self.corpus()] + list(histories)
+        allh = [ls for name, ls in self.corpus() if corpus_prefix is None or name.startswith(corpus_prefix + "-") or name.startswith("all-")] + list(histories)
         problems = []
         for i in range(0, len(allh), chunk):
             part = allh[i:i + chunk]
